@@ -108,7 +108,7 @@ impl LogInnerManager {
         pre_term: u64,
         split_off_index: u64,
     ) -> anyhow::Result<LogInnerManager> {
-        let index_file = OpenOptions::new()
+        let mut index_file = OpenOptions::new()
             .read(true)
             .write(true)
             .create(true)
@@ -126,7 +126,7 @@ impl LogInnerManager {
             log_index: start_index,
             file_index: 4096,
         };
-        let (header, indexs, index_cursor, file_len) = if data_meta.len() == 0 {
+        let (header, mut indexs, mut index_cursor, file_len) = if data_meta.len() == 0 {
             //init
             let header = LogIndexHeaderDo {
                 first_index: start_index,
@@ -169,6 +169,28 @@ impl LogInnerManager {
         };
         let (data_cursor, msg_count) =
             Self::move_to_end(&mut data_file, indexs.last().unwrap(), start_index).await?;
+        // A kill between the data write that completes an index block and the write of its index
+        // entry leaves the entry missing. read_indexs counts index_interval records per entry, so
+        // a later entry spanning two blocks would hide a whole block after the next restart:
+        // the missing entries are written now.
+        let interval = header.index_interval as u64;
+        while interval > 0
+            && start_index + msg_count >= indexs.last().unwrap().log_index + interval
+            && index_cursor + 10 < header.data_area_index as u64
+        {
+            let last = indexs.last().unwrap().clone();
+            let (cursor, _) =
+                Self::move_to_index_by_count(&mut data_file, &last, start_index, interval).await?;
+            let index_data = write_varint64(cursor - last.file_index);
+            index_file.seek(SeekFrom::Start(index_cursor)).await?;
+            index_file.write_all(&index_data).await?;
+            index_file.flush().await?;
+            index_cursor += index_data.len() as u64;
+            indexs.push(InnerIdxDto {
+                log_index: last.log_index + interval,
+                file_index: cursor,
+            });
+        }
         data_file.seek(SeekFrom::Start(data_cursor)).await?;
         log::info!(
             "data_cursor:{},{},{}|index:{},{},{}|pre_term:{}",
